@@ -42,6 +42,32 @@ type rangeLoop struct {
 
 var reRangeCond = regexp.MustCompile(`^\(\(φt\d+ \+ 1\) < len\((.*)\)\)$`)
 
+var reIndexCond = regexp.MustCompile(`^\(φt\d+ < len\((.*)\)\)$`)
+
+// isCountingPhi: cond is `i < len(X)` where i is a phi of 0 and i+1.
+func isCountingPhi(cond ssa.Value) bool {
+	bo, ok := cond.(*ssa.BinOp)
+	if !ok {
+		return false
+	}
+	ph, ok := bo.X.(*ssa.Phi)
+	if !ok || len(ph.Edges) != 2 {
+		return false
+	}
+	zero, inc := false, false
+	for _, e := range ph.Edges {
+		if k, ok := e.(*ssa.Const); ok && k.Value != nil && k.Value.String() == "0" {
+			zero = true
+		}
+		if b, ok := e.(*ssa.BinOp); ok && b.Op == token.ADD && b.X == ssa.Value(ph) {
+			if k, ok := b.Y.(*ssa.Const); ok && k.Value != nil && k.Value.String() == "1" {
+				inc = true
+			}
+		}
+	}
+	return zero && inc
+}
+
 func rangeLoops(fn *ssa.Function) []*rangeLoop {
 	var out []*rangeLoop
 	for _, b := range fn.Blocks {
@@ -54,7 +80,11 @@ func rangeLoops(fn *ssa.Function) []*rangeLoop {
 		}
 		m := reRangeCond.FindStringSubmatch(an.CondString(iff.Cond, false))
 		if m == nil || b.Comment != "rangeindex.loop" {
-			continue
+			// a hand-written index loop: for i := 0; i < len(X); i++
+			m = reIndexCond.FindStringSubmatch(an.CondString(iff.Cond, false))
+			if m == nil || b.Comment != "for.loop" || !isCountingPhi(iff.Cond) {
+				continue
+			}
 		}
 		l := &rangeLoop{header: b, over: m[1], body: map[*ssa.BasicBlock]bool{}}
 		// body: blocks reachable from the true successor that can reach the header
@@ -873,7 +903,7 @@ func ruleMissingPredicate(rule string) RuleFn {
 				}
 				v := an.Resolve(r.Results[0])
 				if k, ok := v.(*ssa.Const); ok && k.IsNil() {
-					g := an.NewGates().AddEdges(an.EdgesWhere(sh, func(f an.Fact) bool { return strings.HasPrefix(f.S, "(len(φ") && strings.HasSuffix(f.S, " <= 0)") })...)
+					g := an.NewGates().AddEdges(an.EdgesWhere(sh, func(f an.Fact) bool { return strings.HasPrefix(f.S, "(len(φ") && strings.HasSuffix(f.S, " == 0)") })...)
 					if hit, _ := an.PathTo(sh, nil, an.IsInstr(r), g); hit == nil && g.Len() > 0 {
 						okNil = true
 					}
